@@ -448,18 +448,22 @@ structure CpAprArgs where
   algorithm : Option Nat   -- some k: one of the three known names; none: unknown
   init : InitSpec
 
+/-- a Kruskal guess with the tensor's shape, the requested number of components and no
+negative entry; or the name `random` -/
+def InitSpec.fitsApr (i : InitSpec) (shape : List Nat) (rank : Int) : Prop :=
+  match i with
+  | .ktensor s R nf nw => s = shape ∧ (R : Int) = rank ∧ nf = false ∧ nw = false
+  | .random => True
+  | _ => False
+
+instance (i : InitSpec) (shape : List Nat) (rank : Int) : Decidable (i.fitsApr shape rank) := by
+  unfold InitSpec.fitsApr; split <;> infer_instance
+
 /-- positive rank, non-negative data, a known algorithm, a fitting non-negative guess -/
 def Pre_cpApr (a : CpAprArgs) : Prop :=
-  0 < a.rank ∧ a.dataNonneg = true ∧ a.algorithm.isSome = true ∧
-  (match a.init with
-   | .ktensor s R nf nw => s = a.shape ∧ (R : Int) = a.rank ∧ nf = false ∧ nw = false
-   | .random => True
-   | _ => False)
+  0 < a.rank ∧ a.dataNonneg = true ∧ a.algorithm.isSome = true ∧ a.init.fitsApr a.shape a.rank
 
-instance (a : CpAprArgs) : Decidable (Pre_cpApr a) := by
-  unfold Pre_cpApr
-  refine @instDecidableAnd _ _ _ (@instDecidableAnd _ _ _ (@instDecidableAnd _ _ _ ?_))
-  split <;> infer_instance
+instance (a : CpAprArgs) : Decidable (Pre_cpApr a) := by unfold Pre_cpApr; infer_instance
 
 structure TuckerArgs where
   shape : List Nat
@@ -471,24 +475,26 @@ structure TuckerArgs where
 /-- rank of mode `n` when a single rank stands for all modes -/
 def rankAt (rank : List Int) (n : Nat) : Int := if rank.length = 1 then rank.getD 0 0 else rank.getD n 0
 
-/-- one rank or one per mode; `dimorder` a permutation; a list guess has one matrix per mode,
-each (beyond the first mode visited, which is recomputed) of size extent × rank -/
-def Pre_tucker (a : TuckerArgs) : Prop :=
-  let N := a.shape.length
-  let order := a.dimorder.getD ((List.range N).map Int.ofNat)
-  a.maxitersNonneg = true ∧ (a.rank.length = 1 ∨ a.rank.length = N) ∧ 0 < N ∧
-  optAll a.dimorder (fun p => IsPermI p N) ∧
-  (match a.init with
-   | .mats ms => ms.length = N ∧ ∀ d ∈ order.drop 1,
-       ((ms.getD d.toNat (0, 0)).1 : Int) = a.shape.getD d.toNat 0 ∧ ((ms.getD d.toNat (0, 0)).2 : Int) = rankAt a.rank d.toNat
-   | .random => True
-   | .nvecs => True
-   | _ => False)
+/-- a list guess has one matrix per mode, each (beyond the first mode visited, which is
+recomputed) of size extent × rank; or one of the names -/
+def InitSpec.fitsTucker (i : InitSpec) (shape : List Nat) (rank order : List Int) : Prop :=
+  match i with
+  | .mats ms => ms.length = shape.length ∧ ∀ d ∈ order.drop 1,
+      ((ms.getD d.toNat (0, 0)).1 : Int) = shape.getD d.toNat 0 ∧ ((ms.getD d.toNat (0, 0)).2 : Int) = rankAt rank d.toNat
+  | .random => True
+  | .nvecs => True
+  | _ => False
 
-instance (a : TuckerArgs) : Decidable (Pre_tucker a) := by
-  unfold Pre_tucker
-  refine @instDecidableAnd _ _ _ (@instDecidableAnd _ _ _ (@instDecidableAnd _ _ _ (@instDecidableAnd _ _ _ ?_)))
-  split <;> infer_instance
+instance (i : InitSpec) (shape : List Nat) (rank order : List Int) : Decidable (i.fitsTucker shape rank order) := by
+  unfold InitSpec.fitsTucker; split <;> infer_instance
+
+/-- one rank or one per mode; `dimorder` a permutation; a fitting guess -/
+def Pre_tucker (a : TuckerArgs) : Prop :=
+  a.maxitersNonneg = true ∧ (a.rank.length = 1 ∨ a.rank.length = a.shape.length) ∧ 0 < a.shape.length ∧
+  optAll a.dimorder (fun p => IsPermI p a.shape.length) ∧
+  a.init.fitsTucker a.shape a.rank (a.dimorder.getD ((List.range a.shape.length).map Int.ofNat))
+
+instance (a : TuckerArgs) : Decidable (Pre_tucker a) := by unfold Pre_tucker; infer_instance
 
 /-- `hosvd`: one rank per mode when ranks are given; `dimorder` a permutation -/
 def Pre_hosvd (N : Nat) (ranks : Option Nat) (dimorder : Option (List Int)) : Prop :=
@@ -508,22 +514,27 @@ structure GcpArgs where
   mask : Option (List Nat)
   init : InitSpec
 
+/-- a Kruskal guess, or one matrix per mode, with the data's shape and the requested number
+of components; or the name `random` -/
+def InitSpec.fitsGcp (i : InitSpec) (shape : List Nat) (rank : Int) : Prop :=
+  match i with
+  | .ktensor s R _ _ => s = shape ∧ (R : Int) = rank
+  | .mats ms => ms ≠ [] ∧ (∀ m ∈ ms, (m.2 : Int) = rank) ∧ ms.map (·.1) = shape
+  | .random => True
+  | _ => False
+
+instance (i : InitSpec) (shape : List Nat) (rank : Int) : Decidable (i.fitsGcp shape rank) := by
+  unfold InitSpec.fitsGcp; split <;> infer_instance
+
 /-- admissible combinations: sparse data needs a stochastic solver and no mask; a mask needs
 L-BFGS-B and the data's shape; the guess fits -/
 def Pre_gcp (a : GcpArgs) : Prop :=
   a.objectiveOk = true ∧ (a.solver = 0 ∨ a.solver = 1) ∧
   (a.sparse = true → a.solver = 1 ∧ a.mask = none) ∧
   optAll a.mask (fun m => a.solver = 0 ∧ m = a.shape) ∧
-  (match a.init with
-   | .ktensor s R _ _ => s = a.shape ∧ (R : Int) = a.rank
-   | .mats ms => ms = a.shape.map (fun e => (e, a.rank.toNat)) ∧ 0 ≤ a.rank ∧ ms ≠ []
-   | .random => True
-   | _ => False)
+  a.init.fitsGcp a.shape a.rank
 
-instance (a : GcpArgs) : Decidable (Pre_gcp a) := by
-  unfold Pre_gcp
-  refine @instDecidableAnd _ _ _ (@instDecidableAnd _ _ _ (@instDecidableAnd _ _ _ (@instDecidableAnd _ _ _ ?_)))
-  split <;> infer_instance
+instance (a : GcpArgs) : Decidable (Pre_gcp a) := by unfold Pre_gcp; infer_instance
 
 /-! ### importer -/
 
